@@ -5,6 +5,7 @@
 // sliced (R7) to the three fields it touches; KbdOut::scroll is a stub with a ghost log.
 
 //@ raw
+#[verifier::external_body]
 pub struct VerifError { verif_opaque: u8 }
 type Result<T> = core::result::Result<T, VerifError>;
 //@ item parser/src/custom_action.rs enum MWheelDirection
